@@ -26,6 +26,8 @@ ASSUMPTIONS = ["reference model + AD trusted after self-test", "cases whose refe
 def strategy_(g):
     case = GG.gen(g, n_pose=(2, 8), n_lm=(0, 3), n_loops=(0, 3), conds=(1.0, 1e2, 1e3), noise=(0.05, 0.05), pert=(0.3, 0.3))
     case["n_steps"] = g.choice([1, 1, 2, 3])
+    # multi-start: the same edge objects were already used in an earlier Graph with OTHER Vertex objects (same ids) that moved since
+    case["restart"] = g.choice([False, False, False, True])
     case["alias"] = []
     ff0 = case["fix_first"]
     free0 = [i for i, v in enumerate(case["verts"]) if not (v["fixed"] or (ff0 and i == 0))]
@@ -68,6 +70,13 @@ def check(case, ctx):
     S_ = GG.S_of(case)
 
     g = GG.build(case)
+    if case.get("restart"):
+        # one constraint list, several initial guesses: an earlier graph over the same edge objects took a step (its vertices moved);
+        # the graph under test is built from those edge objects and fresh Vertex objects holding the case's poses
+        ctx.event("edges-reused-from-an-earlier-graph")
+        GC.optimize_quiet(g, tol=0.0, max_iter=1, fix_first_pose=case["fix_first"], verbose=False)
+        fresh = GG.build(case)
+        g = gs.Graph(g._edges, fresh._vertices)
     for i, j in case.get("alias", []):
         g._vertices[i].pose = g._vertices[j].pose
     if case.get("alias"):
